@@ -76,8 +76,8 @@ get_std_fds = Fn(U, '_get_std_fds', ret='r', pre_rewrites=RW + [
     loop_kinds={0: 'iter'},
     requires=[('C05.pre.bfd.len', '!old(k).fds.contains_key(-1) && redirects@.len() < 0x7fff_ffff')],
     ensures=[
-        ('C08.bfd.std_fds_opens_only_what_it_returns', 'only_returned_opened(old(k).fds, final(k).fds, r.0, r.1)'),
-        ('C08.bfd.std_fds_frame', 'final(k).child == old(k).child && final(k).forks == old(k).forks && !final(k).fds.contains_key(-1)'),
+        ('C08+C04.bfd.std_fds_opens_only_what_it_returns', 'only_returned_opened(old(k).fds, final(k).fds, r.0, r.1)'),
+        ('C08+C04.bfd.std_fds_frame', 'final(k).child == old(k).child && final(k).forks == old(k).forks && !final(k).fds.contains_key(-1)'),
     ],
     hints={'after-text:fd_out = _fd_candidate;':
            'LABEL:C08+C04.bfd.mid.only_returned_after_stdout_side: assert(only_returned_opened(old(k).fds, k.fds, fd_out, fd_err)); ',
@@ -87,7 +87,7 @@ get_std_fds = Fn(U, '_get_std_fds', ret='r', pre_rewrites=RW + [
            'assert(match _fd_candidate { Some(c) => c >= 0 ==> k.fds.contains_key(c as int) && k.fds.contains_key(bfd_src(item.2@, fd_out, fd_err)) '
            '&& k.fds[c as int] == k.fds[bfd_src(item.2@, fd_out, fd_err)], None => true });'},
     loops={0: Loop(invariant=[
-        ('C08.inv.bfd.only_returned', '!k.fds.contains_key(-1) && !old(k).fds.contains_key(-1) && only_returned_opened(old(k).fds, k.fds, fd_out, fd_err) && k.child == old(k).child && k.forks == old(k).forks '
+        ('C08+C04.inv.bfd.only_returned', '!k.fds.contains_key(-1) && !old(k).fds.contains_key(-1) && only_returned_opened(old(k).fds, k.fds, fd_out, fd_err) && k.child == old(k).child && k.forks == old(k).forks '
          '&& (match fd_out { Some(x) => x >= 0 ==> k.fds.contains_key(x as int), None => true }) && (match fd_err { Some(y) => y >= 0 ==> k.fds.contains_key(y as int), None => true })'),
     ])},
 )
@@ -95,16 +95,16 @@ get_std_fds = Fn(U, '_get_std_fds', ret='r', pre_rewrites=RW + [
 stdout_fd = Fn(U, '_get_dupped_stdout_fd', ret='r', pre_rewrites=RW, add_params='Tracked(k): Tracked<&mut Kernel>', ghost_args=GA,
     requires=[('C05.pre.bfd.len2', '!old(k).fds.contains_key(-1) && cmd.redirects_to@.len() < 0x7fff_ffff')],
     ensures=[
-        ('C08.bfd.stdout_fd_is_the_only_new_descriptor',
+        ('C08+C04.bfd.stdout_fd_is_the_only_new_descriptor',
          'if cl.commands@.len() > 1 { r == 1 && final(k).fds == old(k).fds } else { only_returned_opened(old(k).fds, final(k).fds, Some(r), None) }'),
-        ('C08.bfd.stdout_fd_frame', 'final(k).child == old(k).child && final(k).forks == old(k).forks'),
+        ('C08+C04.bfd.stdout_fd_frame', 'final(k).child == old(k).child && final(k).forks == old(k).forks'),
     ])
 stderr_fd = Fn(U, '_get_dupped_stderr_fd', ret='r', pre_rewrites=RW, add_params='Tracked(k): Tracked<&mut Kernel>', ghost_args=GA,
     requires=[('C05.pre.bfd.len3', '!old(k).fds.contains_key(-1) && cmd.redirects_to@.len() < 0x7fff_ffff')],
     ensures=[
-        ('C08.bfd.stderr_fd_is_the_only_new_descriptor',
+        ('C08+C04.bfd.stderr_fd_is_the_only_new_descriptor',
          'if cl.commands@.len() > 1 { r == 2 && final(k).fds == old(k).fds } else { only_returned_opened(old(k).fds, final(k).fds, Some(r), None) }'),
-        ('C08.bfd.stderr_fd_frame', 'final(k).child == old(k).child && final(k).forks == old(k).forks'),
+        ('C08+C04.bfd.stderr_fd_frame', 'final(k).child == old(k).child && final(k).forks == old(k).forks'),
     ])
 print_stdout = Fn(U, 'print_stdout', pre_rewrites=RW, add_params='Tracked(k): Tracked<&mut Kernel>', ghost_args=GA, file_drops=True,
     requires=[('C05.pre.bfd.len4', '!old(k).fds.contains_key(-1) && cmd.redirects_to@.len() < 0x7fff_ffff')],
